@@ -235,7 +235,7 @@ func init() {
 		{"min", funcKernel(f, "min", "min64", "(a_ b_ : Int)", "Int", Spec{Kind: "i64"})},
 		{"genRanges.loop", forCondKernel(f, "Fetcher.genRanges", []string{"start < end"}, "genRangesMore", "(start_ end_ : Int) (continuous : Bool)",
 			Spec{Kind: "i64", Repl: map[string]string{"f.opts.Continuous": "continuous"}})},
-		{"genRanges.atEnd", condKernel(f, "Fetcher.genRanges", []string{"start == end"}, "genRangesAtEnd", "(start_ end_ : Int)", i64)},
+		{"genRanges.atEnd", condKernel(f, "Fetcher.genRanges", []string{"start", "end"}, "genRangesAtEnd", "(start_ end_ : Int)", i64)},
 		{"genRanges.batchEnd", assignKernel(f, "Fetcher.genRanges", "batchEnd", "genRangesBatchEnd", "(start_ end_ batch_ : Int)", "Int", i64)},
 		{"genRanges.next", assignKernel(f, "Fetcher.genRanges", "next", "genRangesNext", "(start_ batchEnd_ : Int)", "Int × Int", i64)},
 		{"genRanges.advance", assignKernel(f, "Fetcher.genRanges", "start", "genRangesAdvance", "(batchEnd_ : Int)", "Int", i64)},
